@@ -10,6 +10,7 @@ deliveries (no block inside `event()`).
 -/
 import EdzedModel.Dispatch
 import EdzedProofs.Dispatch
+import EdzedProofs.DispatchTie
 import EdzedModel.Gen.Constants
 
 namespace Edzed.Dispatch
@@ -380,3 +381,154 @@ example : (rawSend exWindow exReady 0 (.name "zz") []).2 = .exc .unknownEvent
     ∧ (rawSend exWindow exReady 0 .empty []).2 = .exc .valueError := by decide +kernel
 
 end Edzed.Dispatch
+
+/-! ### tie by translation: `SBlock.event` and `Event.send`
+
+`tools/py2lean.py` (scheme TrProg, tools/py2lean_dispatch.py) regenerates
+EdzedModel/Gen/TranslatedDispatch.lean from the CURRENT Python AST of the two methods on every run: the
+order of the statements, the nesting of if / while / for / try-except-finally / with, every condition and
+every `return` / `raise` come from the source; only the meaning of the leaves (attribute accesses, tests,
+calls) is declared, as the fields of `EventPrims` / `SendPrims`.  Here the primitives are instantiated with
+the operations of the model (`evPrims`, `sendPrims` in EdzedProofs/DispatchTie.lean) and the translated
+programs are proved to BE the model's dispatch steps, for every circuit, block, state, event and data.
+A semantic edit of either method changes the generated text: `translated_…_is_reference` (closed by
+`rfl`) or a lemma about the generated loops stops compiling, and with it this property. -/
+
+namespace Edzed.TrTie
+open Edzed.Dispatch Edzed.Gen.TrD
+
+/-- the program generated from the current source of `SBlock.event` IS the reference program -/
+theorem translated_event_is_reference {σ ε τ δ ν η ρ γ : Type} :
+    @event σ ε τ δ ν η ρ γ = @eventRef σ ε τ δ ν η ρ γ := by
+  first
+  | rfl
+  | -- the same statements with the leading type checks written as a different (equivalent) cascade of tests
+    (funext P fuel etype data
+     unfold event eventRef checkPart
+     cases P.isStr etype <;> cases P.etypeTruthy etype <;> cases P.isEventType etype <;> rfl)
+
+/-- **The model's `deliver` IS `SBlock.event` as translated from the current source**: for every
+    circuit, block, state, event type and data the translated program, run on the primitives of the
+    model, computes exactly the state and the result of `deliver` (`n` = fuel of the EventCond loop, any
+    number above the nesting depth of the event type). -/
+theorem translated_event_is_model (c : Circ) (fuel : Nat) (b : Blk) (d : Nat) (s : St) (et : EType)
+    (data : Data) (hb : c.blocks[d]? = some b) (n : Nat) (hn : EType.depth et < n) :
+    toRes (event (evPrims c fuel b d s.stack) n et data s) = deliver c (fuel + 1) s d et data := by
+  rw [translated_event_is_reference]
+  unfold eventRef deliver
+  simp only [hb, M.bind, checkPart_model]
+  cases hc : et.check with
+  | some x => simp [toRes]
+  | none =>
+    have hne : et ≠ .none := by intro h; subst h; simp [EType.check] at hc
+    simp only [M.get]
+    by_cases ha : s.active d = true
+    · have : (evPrims c fuel b d s.stack).getActive s = true := ha
+      simp only [this, ha, if_true]
+      simp [refusePart, evPrims, mkExc, M.bind, M.modify, M.raise, toRes]
+    · have ha' : s.active d = false := by simpa using ha
+      have : (evPrims c fuel b d s.stack).getActive s = false := ha'
+      simp only [this, ha', Bool.false_eq_true, if_false]
+      have hfin := finally_model c fuel b d s.stack (bodyPart (evPrims c fuel b d s.stack) n et data)
+        { s with active := upd s.active d true }
+      show toRes ((M.bind (M.tryFinally (bodyPart (evPrims c fuel b d s.stack) n et data)
+          (M.bind ((evPrims c fuel b d s.stack).setActive false) fun _ => M.pure ())) fun (_ : Unit) => M.pure ())
+          { s with active := upd s.active d true }) = _
+      rw [hfin, bodyPart_model c fuel b d s.stack n et data _ hn hne]
+
+/-- the program generated from the current source of `Event.send` IS the reference program -/
+theorem translated_send_is_reference {σ ε δ φ ψ : Type} : @send σ ε δ φ ψ = @sendRef σ ε δ φ ψ := rfl
+
+/-- … and its filter loop: each iteration IS the hand-written step, the empty list ends the loop -/
+theorem translated_filter_loop_is_reference {σ ε δ φ ψ : Type} (Q : SendPrims σ ε δ φ ψ) (f : φ)
+    (fs : List φ) (data : δ) :
+    send_for1 Q (f :: fs) data = filterStepRef Q (send_for1 Q fs) f data ∧
+    send_for1 Q [] data = M.pure data := ⟨rfl, rfl⟩
+
+/-- **One step of the model's `sendEdges` IS `Event.send` as translated from the current source**: the
+    circuit check, `data['source'] = source.name` BEFORE the filters, the filter loop (a mapping replaces
+    the data, a false value ends the delivery with `return False`, anything else keeps the data), then
+    `dest.event(etype, **data)`; an exception of the delivery propagates, otherwise the next event of
+    the sender follows. -/
+theorem translated_send_is_model (dlv : Dlv) (src : Nat) (s : St) (e : Edge) (es : List Edge) (data : Data) :
+    sendEdges dlv src s (e :: es) data =
+      andThen (toResS (send (sendPrims dlv src e) data e.filters s))
+        (fun s1 => sendEdges dlv src s1 es data) := by
+  rw [translated_send_is_reference]
+  unfold sendRef
+  rw [sendEdges]
+  have h1 : (sendPrims dlv src e).sameCircuit = true := rfl
+  have h2 : (sendPrims dlv src e).setSource data = data.set "source" (.str (blockName src)) := rfl
+  simp only [h1, h2, Bool.not_true, Bool.false_eq_true, if_false, M.bind, filter_loop_is_model]
+  cases applyFilters e.filters (data.set "source" (.str (blockName src))) with
+  | none => simp [toResS, andThen]
+  | some d' =>
+    have h3 : (sendPrims dlv src e).destEvent d' s = liftUnit (dlv s e.dest e.etype d') := rfl
+    simp only [h3]
+    generalize dlv s e.dest e.etype d' = p
+    obtain ⟨s', r⟩ := p
+    cases r <;> simp [liftUnit, toResS, andThen, M.ret]
+
+/-- `send()` returns False exactly when a filter rejects the event (and then nothing was delivered) -/
+theorem translated_send_returns_false_iff_rejected (dlv : Dlv) (src : Nat) (s : St) (e : Edge) (data : Data) :
+    (send (sendPrims dlv src e) data e.filters s).2 = .ret false ↔
+      applyFilters e.filters (data.set "source" (.str (blockName src))) = Option.none := by
+  rw [translated_send_is_reference]
+  unfold sendRef
+  have h1 : (sendPrims dlv src e).sameCircuit = true := rfl
+  have h2 : (sendPrims dlv src e).setSource data = data.set "source" (.str (blockName src)) := rfl
+  simp only [h1, h2, Bool.not_true, Bool.false_eq_true, if_false, M.bind, filter_loop_is_model]
+  cases applyFilters e.filters (data.set "source" (.str (blockName src))) with
+  | none => simp
+  | some d' =>
+    have h3 : (sendPrims dlv src e).destEvent d' s = liftUnit (dlv s e.dest e.etype d') := rfl
+    simp only [h3]
+    generalize dlv s e.dest e.etype d' = p
+    obtain ⟨s', r⟩ := p
+    cases r <;> simp [liftUnit, M.ret]
+
+/-- the `while isinstance(etype, EventCond)` loop as translated IS the model's `EType.resolve`: `etrue`
+    for a true `data.get('value')`, `efalse` otherwise, `None` ends the delivery with `return None` -/
+theorem translated_eventcond_loop_is_resolve (c : Circ) (fuel : Nat) (b : Blk) (d : Nat)
+    (stk0 : List Frame) (data : Data) (n : Nat) (et : EType) (s : St) (hn : EType.depth et < n)
+    (het : et ≠ .none) :
+    event_loop1 (evPrims c fuel b d stk0) data n et s =
+      (s, match optOf (et.resolve (dataTruthy data)) with
+          | Option.none => .ret Val.none
+          | some e => .next e) :=
+  loop_is_resolve c fuel b d stk0 data n et s hn het
+
+/-! non-vacuity: concrete deliveries evaluated through BOTH the translated program and the model -/
+
+/-- a recursive event (the block of `exLoop` is busy): refused, `abort` called, by both -/
+example :
+    let s : St := { exReady with active := fun _ => true }
+    let b : Blk := { scriptA := [.send 0 Option.none], extra := [⟨0, .name "a", []⟩] }
+    (toRes (event (evPrims exLoop 3 b 0 s.stack) 1 (.name "a") [] s)).2 = .exc .circuitError
+    ∧ (toRes (event (evPrims exLoop 3 b 0 s.stack) 1 (.name "a") [] s)).1.error = some .circuitError
+    ∧ (deliver exLoop 4 s 0 (.name "a") []).2 = .exc .circuitError
+    ∧ (deliver exLoop 4 s 0 (.name "a") []).1.error = some .circuitError := by decide +kernel
+
+/-- an error inside a handler (the self-loop of `exLoop`, refused one level down): the exception leaves
+    the handler, `abort`, re-raised, the guard released -- by both -/
+example :
+    let b : Blk := { scriptA := [.send 0 Option.none], extra := [⟨0, .name "a", []⟩] }
+    (toRes (event (evPrims exLoop 3 b 0 exReady.stack) 1 (.name "a") [] exReady)).2 = .exc .circuitError
+    ∧ (toRes (event (evPrims exLoop 3 b 0 exReady.stack) 1 (.name "a") [] exReady)).1.active 0 = false
+    ∧ (toRes (event (evPrims exLoop 3 b 0 exReady.stack) 1 (.name "a") [] exReady)).1.error = some .circuitError
+    ∧ (deliver exLoop 4 exReady 0 (.name "a") []).2 = .exc .circuitError
+    ∧ (deliver exLoop 4 exReady 0 (.name "a") []).1.active 0 = false := by decide +kernel
+
+/-- a filter rejection: `send()` returns False, nothing is delivered, the state is untouched -/
+example :
+    let e : Edge := ⟨0, .name "a", [.accept, .reject]⟩
+    (match (send (sendPrims (deliver exLoop 3) 0 e) [] e.filters exReady).2 with
+      | .ret false => true | _ => false) = true
+    ∧ (send (sendPrims (deliver exLoop 3) 0 e) [] e.filters exReady).1.trace.length = 0
+    ∧ (sendEdges (deliver exLoop 3) 0 exReady [e] []).2 = .ret Val.none := by decide +kernel
+
+/-- a conditional event resolving to None through the translated loop -/
+example : (toRes (event (evPrims exLoop 3 { } 0 []) 3 (.cond (.cond .none (.name "a")) .none)
+    [("value", .bool true)] exReady)).2 = .ret Val.none := by decide +kernel
+
+end Edzed.TrTie
